@@ -406,26 +406,47 @@ func (b *builder) encode(n *bNode) {
 	copy(b.out[n.coff:], racfmt.EncodeNode(nd))
 }
 
-// buildFromDescription lays a file out from d.Runs and d.Tree.
-func buildFromDescription(d fileDesc) (*builtFile, error) {
-	b := &builder{d: d}
+// runsChunks / runsData: the chunks and the decompressed data that d.Runs stand for.
+func runsChunks(d fileDesc) ([]bChunk, int64, error) {
+	var chunks []bChunk
 	pos := int64(0)
 	for _, r := range d.Runs {
 		n, size, expl, codec := r[0], r[1], r[2], r[3]
 		if n < 1 || size < 1 || expl < 0 || expl > size || codec < 0 || codec > 3 || (codec == 0 && expl != 0) {
-			return nil, fmt.Errorf("bad run %v", r)
+			return nil, 0, fmt.Errorf("bad run %v", r)
 		}
 		for i := 0; i < n; i++ {
-			b.chunks = append(b.chunks, bChunk{lo: pos, hi: pos + int64(size), expl: expl, codec: codec})
+			chunks = append(chunks, bChunk{lo: pos, hi: pos + int64(size), expl: expl, codec: codec})
 			pos += int64(size)
 		}
 	}
-	b.data = make([]byte, pos)
-	for _, c := range b.chunks {
+	return chunks, pos, nil
+}
+
+func dataOf(d fileDesc, chunks []bChunk, size int64) []byte {
+	data := make([]byte, size)
+	for _, c := range chunks {
 		for i := c.lo; i < c.lo+int64(c.expl); i++ {
-			b.data[i] = byte(1 + mix(d.Seed, uint64(i), 7, 3)%255)
+			data[i] = byte(1 + mix(d.Seed, uint64(i), 7, 3)%255)
 		}
 	}
+	return data
+}
+
+func runsData(d fileDesc) []byte {
+	chunks, size, _ := runsChunks(d)
+	return dataOf(d, chunks, size)
+}
+
+// buildFromDescription lays a file out from d.Runs and d.Tree.
+func buildFromDescription(d fileDesc) (*builtFile, error) {
+	b := &builder{d: d}
+	var size int64
+	var err error
+	if b.chunks, size, err = runsChunks(d); err != nil {
+		return nil, err
+	}
+	b.data = dataOf(d, b.chunks, size)
 	root, err := b.parse(d.Tree, 1)
 	if err != nil {
 		return nil, err
@@ -450,19 +471,12 @@ func buildFromDescription(d fileDesc) (*builtFile, error) {
 // as many levels as it takes) for the genuinely large case.
 func buildWithChunkWriter(d fileDesc) (*builtFile, error) {
 	b := &builder{d: d}
-	pos := int64(0)
-	for _, r := range d.Runs {
-		for i := 0; i < r[0]; i++ {
-			b.chunks = append(b.chunks, bChunk{lo: pos, hi: pos + int64(r[1]), expl: r[2], codec: r[3]})
-			pos += int64(r[1])
-		}
+	var size int64
+	var err error
+	if b.chunks, size, err = runsChunks(d); err != nil {
+		return nil, err
 	}
-	b.data = make([]byte, pos)
-	for _, c := range b.chunks {
-		for i := c.lo; i < c.lo+int64(c.expl); i++ {
-			b.data[i] = byte(1 + mix(d.Seed, uint64(i), 7, 3)%255)
-		}
-	}
+	b.data = dataOf(d, b.chunks, size)
 	buf := &bytes.Buffer{}
 	w := &rac.ChunkWriter{Writer: buf, CPageSize: uint64(d.Page)}
 	if d.IndexStart {
